@@ -64,6 +64,19 @@ def gen_case(rng, root):
         L["links"] = [dict(replay_link)]
         keep_own = "second for the earlier step only"
         multi = [F["name"], L["name"]]
+    if multi is None and keep_own == "second" and rng.random() < 0.5:
+        # B asks for two functionaries and has one genuine link (the second functionary's); the first functionary's link
+        # of A - reporting the very same artifacts - is presented as the other. One functionary performed B: not enough.
+        B["threshold"] = 2
+        replay_link["materials"], replay_link["products"] = B["materials"], B["products"]
+        B["links"][0] = replay_link
+        if A["links"]:
+            A["links"][0] = dict(A["links"][0], materials=B["materials"], products=B["products"])
+        A["materials"], A["products"] = B["materials"], B["products"]
+        for s_ in ch.steps:
+            s_["rules"] = ([["ALLOW", "*"]], [["ALLOW", "*"]])
+        ch.closed = notice = False
+        keep_own = "second, threshold 2"
     if how == "rename":
         A["links"] = []
     desc = {"steps": n, "from": A["name"], "to": B["name"], "how": how, "own_evidence": keep_own,
